@@ -16,6 +16,6 @@ def symm_pad_1d (l m : Int) : List Int :=
   (arange (-m) (l + m)).map fun (x : Int) => reflect (x : ℚ) (-((1 : ℚ) / 2)) ((l : ℚ) - ((1 : ℚ) / 2))
 
 /-- index-vector sites found in the source and checked to be instances of the helpers above -/
-def pad_sites : Nat × Nat × Nat := (4, 4, 8)   -- mypad symmetric, mypad periodic (np.pad wrap), dtcwt symm_pad
+def pad_sites : Nat × Nat × Nat := (4, 4, 6)   -- mypad symmetric, mypad periodic (np.pad wrap), dtcwt symm_pad
 
 end WV.Gen
